@@ -9,7 +9,8 @@ MODULES = {"LwRing", "LwMatrix", "LwCircuitDefs", "LwCircuit"}
 DEFAULTS = dict(Scenario="single", NUs={3}, PNu=3, NObj=1, Numeric=True, MaxLen=2, MaxRej=0, MaxAnc=0,
                 Kinds={"bs"}, BadModes=RawTLA("{}"), Rids={1}, Convs={"Rx"}, Lqs={0}, Pids={1}, LossQs={1}, BadVals=False,
                 SwapLevel=0, UIds={"H"}, HeraldNs={0, 1}, Targets={1}, AddPairs=RawTLA("{}"), TmplLoss=False,
-                Ordered=False, MaxHer=(2, 2, 2, 2), MaxAdds=3, RejLast=True, MaxComp=99)
+                Ordered=False, MaxHer=(2, 2, 2, 2), MaxAdds=3, RejLast=True, MaxComp=99, NPar=0, ParKinds=(), ParInit=(), ParVals=RawTLA("{}"),
+                DispArgs=RawTLA("{}"), ModeCap=99, DispMin=0)
 
 
 def consts_of(**kw):
